@@ -23,6 +23,9 @@ type histChecker struct {
 	nWindows   int             // ops whose window spanned more than one log position
 	acked      map[string]bool // strings.Join(args) of acknowledged changing writes
 	pendingOps []*Op
+	cmpValid   bool
+	cmpDigest  uint64
+	cmpEntries int
 }
 
 func newHistChecker(w *World, inst *Inst, initial *Model, class string) *histChecker {
@@ -44,6 +47,12 @@ func (hc *histChecker) stepHook() {
 		return
 	}
 	if hc.checkDump && inst.lock.writer == nil && inst.atPoint == "" {
+		// the comparison is skipped while neither side changed
+		d := inst.digest()
+		if hc.cmpValid && d == hc.cmpDigest && len(hc.lm.entries) == hc.cmpEntries {
+			return
+		}
+		hc.cmpValid, hc.cmpDigest, hc.cmpEntries = true, d, len(hc.lm.entries)
 		if err := compareDump(hc.lm.cur(), inst.dump(), hc.checkHooks); err != nil {
 			hc.w.violate(hc.class+"/state", "served dataset differs from model(log): %v", err)
 		}
@@ -114,6 +123,10 @@ func (hc *histChecker) onReply(op *Op, connID int) {
 	lm := hc.lm
 	lm.poll()
 	hc.nChecked++
+	if len(op.Cmd.Inner) > 0 {
+		hc.onScriptReply(op)
+		return
+	}
 	lo, hi := lm.posBefore(op.Invoke), lm.posThrough(op.Return)
 	if hc.exact {
 		g := hc.cmdGrant(op, connID)
@@ -200,5 +213,45 @@ func (hc *histChecker) finish(allowUnowned func(e *lmEntry) bool) {
 			w.violate(hc.class+"/log", "log entry %d (%s) was not caused by any acknowledged command", i, clipStr(strings.Join(e.args, " "), 200))
 			return
 		}
+	}
+}
+
+// onScriptReply: an acknowledged script's writes must all be in the log, in
+// order, inside the op's window; for EVAL/EVALSHA they must be adjacent and
+// appended within one exclusive section.
+func (hc *histChecker) onScriptReply(op *Op) {
+	w := hc.w
+	lm := hc.lm
+	if op.Reply.isErr() {
+		return
+	}
+	atomic := op.name() == "eval" || op.name() == "evalsha"
+	from := lm.posBefore(op.Invoke)
+	prev := -1
+	for i, in := range op.Cmd.Inner {
+		found := -1
+		for j := from; j < len(lm.entries); j++ {
+			e := &lm.entries[j]
+			if e.step > op.Return {
+				break
+			}
+			if e.owner == "" && sameArgs(e.args, in) {
+				found = j
+				break
+			}
+		}
+		if found < 0 {
+			w.violate(hc.class+"/script", "acknowledged script a%02d op%d: its write [%s] is not in the log", op.Client, op.Idx, clipStr(strings.Join(in, " "), 160))
+			return
+		}
+		if atomic && i > 0 && (found != prev+1 || lm.entries[found].step != lm.entries[prev].step) {
+			w.violate(hc.class+"/script", "script a%02d op%d is not contiguous in the log: write %d at entry %d (step %d), previous at entry %d (step %d)",
+				op.Client, op.Idx, i, found, lm.entries[found].step, prev, lm.entries[prev].step)
+			return
+		}
+		lm.entries[found].owner = fmt.Sprintf("a%02d/op%d/script", op.Client, op.Idx)
+		hc.acked[strings.Join(in, "\x00")] = true
+		prev = found
+		from = found + 1
 	}
 }
